@@ -5,6 +5,7 @@ exit 0: the property held on everything explored; exit 1 + `VIOLATION property=â
 exit 2: infrastructure error (no verdict)."""
 import importlib
 import json
+import shutil
 import os
 import sys
 import time
@@ -12,6 +13,49 @@ import traceback
 
 sys.path.insert(0, os.path.dirname(os.path.abspath(__file__)))
 import common  # noqa: E402
+
+
+FUZZ_TARGETS = {"C13": ["tokenize"], "C14": ["tokenize"], "C08": ["tapeblocks"], "C18": ["tapeblocks"], "C15": ["tolisting", "toascii"],
+                "C17": ["prettier"], "C01": ["names"], "C03": ["names"]}
+
+
+def fuzz_streams(prop, tier, seed, ctx, res, mod):
+    """coverage-guided differential search (tools/fuzz_diff.py: atheris, persistent model driver) for inputs on which the model and
+    the Python code differ â€” a support of the correspondence tie, budgeted in seconds; a difference found is a correspondence
+    disagreement like any other (and, for the tokenizer, the property's oracles are evaluated on the input found)"""
+    import subprocess
+    targets = FUZZ_TARGETS.get(prop, [])
+    if not targets:
+        return
+    budget = 60 if tier == "thorough" else 4
+    vt = shutil.which("python3-vt")
+    for t in targets:
+        st = res.stream(f"fuzz_{t}")
+        if vt is None:
+            res.count(f"fuzz_{t}:unavailable (no python3-vt)")
+            continue
+        out = os.path.join(ctx.fresh_dir(), "diff.json")
+        env = dict(os.environ, PYTHONPATH=os.path.join(common.REPO, "src"), MOTO_REPO=common.REPO)
+        r = subprocess.run([vt, os.path.join(common.VERIF, "tools", "fuzz_diff.py"), t, str(budget), "--seed", str(seed), "--out", out],
+                           capture_output=True, text=True, env=env, timeout=budget + 300)
+        n = 0
+        for line in r.stderr.splitlines():
+            if line.startswith("stat::number_of_executed_units:"):
+                n = int(line.split(":")[-1])
+        if "No module named 'atheris'" in r.stderr:
+            res.count(f"fuzz_{t}:unavailable (no atheris)")
+            continue
+        st.evaluations += n
+        st.compared += n
+        res.count(f"fuzz_{t}:inputs", n)
+        if r.returncode == 1 and os.path.exists(out):
+            d = json.load(open(out))
+            case = {"fuzz_target": t, "input_hex": d["input_hex"][:4000]}
+            res.disagree(f"fuzz_{t}", case, d["model"][:600], d["implementation"][:600])
+            if t == "tokenize" and hasattr(mod, "fuzz_oracle"):
+                mod.fuzz_oracle(ctx, res, bytes.fromhex(d["input_hex"]))
+        elif r.returncode not in (0, 1):
+            res.count(f"fuzz_{t}:failed rc={r.returncode}")
 
 
 def main():
@@ -54,6 +98,7 @@ def main():
             mod.replay(ctx, res, recorded)
         else:
             mod.run(ctx, res)
+            fuzz_streams(prop, tier, seed, ctx, res, mod)
             import tapelib
             # every source name an oracle of this run looked at: the Lean naming rule (Spec.Names) and the Python twins agree on it
             tapelib.check_naming_spec(res, list(tapelib.NAMES_USED))
